@@ -212,6 +212,12 @@ func init() {
 		}); err != nil {
 			return err
 		}
+		// "exactly one outcome" also for the requests that come after one whose user code panicked: a
+		// container that no longer accepts a registration leaves every later request without any outcome
+		run.Extra["fault_traffic_requests"] = routing.FaultsSent
+		for _, h := range routing.TakeHung() {
+			run.AddViolation(report.Violation{Kind: "counterexample", What: "C02: " + h})
+		}
 		if routing.WitnessF16() {
 			run.KnownHits["F16"]++
 		}
